@@ -39,6 +39,7 @@ func c20(p *core.Prog, r *core.Report) {
 	c20Frame(p, r)
 	c20Format(p, r)
 	c20Codes(p, r)
+	wireCodes(p, r, "C20-R3", "error")
 	c20Protocol(p, r)
 	c20AppFlag(p, r)
 	// shared obligations: a queued error frame wins over a later connection
@@ -518,7 +519,7 @@ func c20RelayCodes(p *core.Prog, r *core.Report) {
 // caller it goes through GetContextError (deadline -> timeout, cancel ->
 // cancelled); a raw context.DeadlineExceeded / Canceled is reported by
 // GetSystemErrorCode as "unexpected" and a relay wraps it as a network error.
-func c20ContextErrors(p *core.Prog, r *core.Report) {
+func c20ContextErrors(p *core.Prog, r *core.Report, rule string) {
 	isCtxErr := func(v ssa.Value) bool {
 		c, ok := v.(*ssa.Call)
 		if !ok || !c.Call.IsInvoke() || c.Call.Method.Name() != "Err" {
@@ -557,8 +558,41 @@ func c20ContextErrors(p *core.Prog, r *core.Report) {
 				if walk(v, 0) {
 					n++
 					_, reviewed := rawContextErrorReviewed[fname(f)]
-					r.Check(reviewed, "C20-R3", fname(f), "context error returned through GetContextError", p.Pos(ret.Pos()), "reviewed: "+rawContextErrorReviewed[fname(f)],
+					r.Check(reviewed, rule, fname(f), "context error returned through GetContextError", p.Pos(ret.Pos()), "reviewed: "+rawContextErrorReviewed[fname(f)],
 						"a context's raw error is returned to the caller: deadline / cancellation are reported as 'unexpected' instead of timeout / cancelled")
+				}
+			}
+		})
+	}
+	// ... and a raw context error is not handed to a sticky-error setter (a
+	// library function that stores its error parameter in a field: what it
+	// keeps is what every later call on that reader / writer returns)
+	for _, f := range p.SrcFuncs {
+		if pkgOf(f) != core.Root {
+			continue
+		}
+		core.EachInstr(f, func(i ssa.Instruction) {
+			c, ok := i.(ssa.CallInstruction)
+			if !ok {
+				return
+			}
+			g := c.Common().StaticCallee()
+			if g == nil || g.Blocks == nil || pkgOf(g) != core.Root {
+				return
+			}
+			for k, a := range c.Common().Args {
+				if !isCtxErr(a) || k >= len(g.Params) {
+					continue
+				}
+				stored := false
+				for _, ref := range *g.Params[k].Referrers() {
+					if st, isSt := ref.(*ssa.Store); isSt && st.Val == ssa.Value(g.Params[k]) && core.AddrField(st.Addr) != nil {
+						stored = true
+					}
+				}
+				if stored {
+					r.Fail(rule, fname(f), "context error kept through GetContextError", p.Pos(c.Pos()),
+						"a context's raw error is stored by "+fname(g)+" as the sticky error of the operation: deadline / cancellation are reported as 'unexpected' instead of timeout / cancelled")
 				}
 			}
 		})
@@ -568,6 +602,7 @@ func c20ContextErrors(p *core.Prog, r *core.Report) {
 	for _, cs := range p.CallsTo("GetContextError") {
 		if isCtxErr(core.CallArgs(cs.Call)[0]) {
 			m++
+			r.Ok(rule, fname(cs.Fn), fmt.Sprintf("GetContextError(ctx.Err()) #%d", m), p.Pos(cs.Call.Pos()), "the context's error is converted before it is used as the operation's error")
 		}
 	}
 	if m < 4 {
@@ -581,7 +616,7 @@ var rawContextErrorReviewed = map[string]string{}
 
 func c20Protocol(p *core.Prog, r *core.Report) {
 	c20RelayCodes(p, r)
-	c20ContextErrors(p, r)
+	c20ContextErrors(p, r, "C20-R3")
 	d := p.NewDomain("", "SystemErrCode")
 	if f := mustFunc(p, r, "", "Connection", "handleError"); f != nil {
 		ok := false
@@ -592,6 +627,28 @@ func c20Protocol(p *core.Prog, r *core.Report) {
 			}
 		}
 		r.Check(ok, "C20-R4", fname(f), "errCode == ErrCodeProtocol -> connectionError", p.Pos(f.Pos()), "a protocol-error frame tears the connection down", "protocol-error frames no longer close the connection")
+		// ... whatever else the frame carries (its id, its message): assuming the
+		// code read is ErrCodeProtocol, no return is reachable that does not pass
+		// connectionError
+		hyp := map[ssa.Value]core.Set{}
+		core.EachInstr(f, func(i ssa.Instruction) {
+			if u, isU := i.(*ssa.UnOp); isU && u.Op == token.MUL {
+				if fl := core.AddrField(u.X); fl != nil && fl.Name() == "errCode" {
+					hyp[u] = d.OfName("ErrCodeProtocol")
+				}
+			}
+		})
+		if len(hyp) == 0 {
+			r.Errorf("Connection.handleError: no read of the error code found")
+		} else {
+			fl := hypFlow(p, d, f, hyp)
+			res := core.ReachAvoiding(f, nil, core.IsReturn, func(i ssa.Instruction) bool {
+				_, is := core.IsCall(i, "Connection.connectionError")
+				return is
+			}, edgePrune(fl))
+			r.Check(!res.Found, "C20-R4", fname(f), "every protocol-error frame closes the connection, whatever its id", p.Pos(f.Pos()),
+				"assuming errCode == ErrCodeProtocol no return avoids connectionError", "a frame with code ErrCodeProtocol can be handled without closing the connection (an extra condition on the frame decides): "+p.TrailString(res))
+		}
 	}
 	// dispatch: error frames go to handleError without relay, to the relayer with relay
 	dm := p.NewDomain("", "messageType")
